@@ -25,7 +25,4 @@ def scaleTrunc (radix : Nat) (k : Int) (rep : Int) : Int :=
 def den (radix : Nat) (rep : Int) (e : Int) : Rat :=
   if 0 ≤ e then (rep : Rat) * ((radix : Int) ^ e.toNat : Int) else (rep : Rat) / ((radix : Int) ^ (-e).toNat : Int)
 
-/-- the exact results of the zero-degree operators `+` and `-` (every other operator: `+`) -/
-def addSub (sub : Bool) (a b : Int) : Int := if sub then a - b else a + b
-
 end Cnl.Spec
